@@ -1,8 +1,7 @@
 SPECIFICATION Spec
 CONSTANTS
-  Mode = "chain1"
-  Inits <- InitsChainT3
-  MaxDepth = 3
+  Inits <- InitsQ
+  ChainDepth = 2
   ChainFull = FALSE
   Dump = TRUE
 INVARIANT RefSound
